@@ -23,6 +23,7 @@ TRUSTED = ["Coq 8.16.1 kernel + vm_compute (primitive floats)", "Rust executor /
            "python driver (generators, AST printers fnlib.py, independent Newton-step oracle, mpmath root refinement, comparators)",
            "hand-written Gallina model coq/Model/Newton.v on coq/Model/{Matrix,Solve,Vector,Complex}.v, tied to src/newton.rs by differential execution"]
 ASSUMPTIONS = ["Rust semantics of closures/Vec/usize as modelled; user closures are pure functions of their argument",
+               "newton_sys(jac)_affine_partial take the soundness of solve_basic (C01 solve_basic_sound) as an explicit premise",
                "solve takes &self and Newton has no interior mutability (checked at run time: parameters() and a second call)",
                "convergence is proved only for affine functions and x^2-c over R; other families are searched"]
 UNPROVED = ["convergence (Ok within the basin, |x - root| of the order of tol) beyond the affine and x^2-c families: search only",
@@ -34,8 +35,10 @@ MANIFEST = dict(
           "Newton solve methods: at most max_iter passes, closure calls bounded by 3*max_iter (scalar), (n+2)*max_iter (finite-difference "
           "systems), max_iter+max_iter (supplied Jacobian), Err carries the max_iter-th iterate and the stopping test failed at every pass, "
           "Ok means the test held at the pass that produced the value, max_iter = 0 gives Err guess, the result depends on (tol, delta, "
-          "max_iter, guess) and on the function only through its values at the call points; over R: affine functions with nonzero slope "
-          "converge to the exact root and Ok on x^2-c is within tol of sqrt c. The float instance of the same definitions is run against "
+          "max_iter, guess) and on the function only through its values at the call points (all six methods); over R: affine functions with "
+          "nonzero slope converge to the exact root and Ok on x^2-c is within tol of sqrt c; over any field, relative to the soundness of "
+          "the step solver (C01's theorem, an explicit premise): both system solvers return an exact root of Mx + c after at most two "
+          "passes (_partial). The float instance of the same definitions is run against "
           "the implementation (Ok/Err, value, call counts, call points, second call; bit-compared) on shared-AST functions, f64 and "
           "Complex; an independent oracle (known roots, stopping-test replay, last-iterate recomputation, call bounds, parameters "
           "before/after) searches for a failing input, including root-free and non-differentiable functions."),
